@@ -25,6 +25,7 @@ type Waiter struct {
 	Site  string
 	Kind  int
 	Seq   uint64
+	G     uint64 // goroutine id: identity only ("the goroutine resumed last"), never an ordering
 	Epoch uint64 // unlock epoch when it parked (lock waiters)
 	ch    chan struct{}
 }
@@ -35,10 +36,16 @@ type Sched struct {
 	waiting []*Waiter
 	seq     uint64
 	epoch   atomic.Uint64
-	// driver is true while the driver itself calls into instrumented code: its yields do not park.
-	driver atomic.Bool
-	off    atomic.Bool
-	Steps  uint64
+	// driver is non-zero (a goroutine id) while the driver itself calls into instrumented code: its
+	// yields do not park.
+	driver atomic.Uint64
+	// DriverWait, set by the driver, resumes one other goroutine; false when none can run.
+	DriverWait func() bool
+	// SelectSeed and selCount decide the poll order of rewritten select statements.
+	SelectSeed uint64
+	selCount   map[string]uint64
+	off        atomic.Bool
+	Steps      uint64
 	// SiteHits counts resumptions per site for interleaving statistics (hash only).
 	Hash uint64
 }
@@ -50,10 +57,11 @@ func Install(s *Sched) { cur.Store(s) }
 
 func New() *Sched { return &Sched{Hash: 1469598103934665603} }
 
-func (s *Sched) park(site string, kind int) {
+func (s *Sched) park(site string, kind int, epoch uint64) {
+	g := goid()
 	s.mu.Lock()
 	s.seq++
-	w := &Waiter{Site: site, Kind: kind, Seq: s.seq, Epoch: s.epoch.Load(), ch: make(chan struct{})}
+	w := &Waiter{Site: site, Kind: kind, Seq: s.seq, G: g, Epoch: epoch, ch: make(chan struct{})}
 	s.waiting = append(s.waiting, w)
 	s.mu.Unlock()
 	<-w.ch
@@ -62,28 +70,38 @@ func (s *Sched) park(site string, kind int) {
 // Yield is inserted before every statement of the instrumented files.
 func Yield(site string) {
 	s := cur.Load()
-	if s == nil || s.off.Load() || s.driver.Load() {
+	if s == nil || s.off.Load() || s.isDriver() {
 		return
 	}
-	s.park(site, KindYield)
+	s.park(site, KindYield, 0)
 }
 
 // Lock replaces x.Lock() / x.RLock(): try is x.TryLock / x.TryRLock.
 func Lock(try func() bool, site string) {
 	for {
+		// the unlock epoch is read BEFORE the attempt: an unlock between the failed attempt and the
+		// parking then makes the waiter runnable at once instead of being missed
+		var epoch uint64
+		s := cur.Load()
+		if s != nil {
+			epoch = s.epoch.Load()
+		}
 		if try() {
 			return
 		}
-		s := cur.Load()
 		if s == nil || s.off.Load() {
 			runtime.Gosched()
 			continue
 		}
-		if s.driver.Load() {
-			// the driver must never wait; it only calls in when everything is quiescent
-			panic("simrt: driver would block on a lock held by a parked goroutine at " + site)
+		if s.isDriver() {
+			// the driver is the scheduler: instead of waiting it runs other goroutines (one step per
+			// attempt) until the lock is free
+			if s.DriverWait == nil || !s.DriverWait() {
+				panic("simrt: driver would block for ever on a lock at " + site)
+			}
+			continue
 		}
-		s.park(site, KindLock)
+		s.park(site, KindLock, epoch)
 	}
 }
 
@@ -128,9 +146,74 @@ func (s *Sched) Resume(w *Waiter) {
 
 // DriverCall runs f on the driver goroutine without parking at its yields.
 func (s *Sched) DriverCall(f func()) {
-	s.driver.Store(true)
-	defer s.driver.Store(false)
+	s.driver.Store(goid())
+	defer s.driver.Store(0)
 	f()
+}
+
+// isDriver: the calling goroutine is the driver inside DriverCall.
+func (s *Sched) isDriver() bool {
+	d := s.driver.Load()
+	return d != 0 && d == goid()
+}
+
+// goid parses the goroutine id from the stack header ("goroutine 123 [running]:"); only used while a
+// DriverCall is in progress.
+func goid() uint64 {
+	var buf [40]byte
+	n := runtime.Stack(buf[:], false)
+	var id uint64
+	for _, c := range buf[len("goroutine "):n] {
+		if c < '0' || c > '9' {
+			break
+		}
+		id = id*10 + uint64(c-'0')
+	}
+	return id
+}
+
+// SelectOrder returns the order in which a rewritten select statement with n communication clauses
+// polls its cases before blocking: a permutation derived from the run's SelectSeed, the site and how
+// often this site was reached. nil (no polling, the runtime decides) without a scheduler.
+func SelectOrder(n int, site string) []int {
+	s := cur.Load()
+	if s == nil || s.off.Load() || s.isDriver() {
+		return nil
+	}
+	s.mu.Lock()
+	if s.selCount == nil {
+		s.selCount = map[string]uint64{}
+	}
+	cnt := s.selCount[site]
+	s.selCount[site] = cnt + 1
+	s.mu.Unlock()
+	h := s.SelectSeed ^ 0x9e3779b97f4a7c15
+	for i := 0; i < len(site); i++ {
+		h = (h ^ uint64(site[i])) * 1099511628211
+	}
+	h = (h ^ cnt) * 1099511628211
+	ord := make([]int, n)
+	for i := range ord {
+		ord[i] = i
+	}
+	for i := n - 1; i > 0; i-- {
+		h ^= h >> 33
+		h *= 0xff51afd7ed558ccd
+		h ^= h >> 33
+		j := int(h % uint64(i+1))
+		ord[i], ord[j] = ord[j], ord[i]
+	}
+	return ord
+}
+
+// Pick returns c when the poll at this level is the turn of clause idx, and the zero value (a nil
+// channel, never ready) otherwise.
+func Pick[T any](c T, ord []int, level, idx int) T {
+	if ord != nil && ord[level] == idx {
+		return c
+	}
+	var zero T
+	return zero
 }
 
 // Off stops scheduling: parked goroutines are released and nothing parks any more (end of run).
